@@ -186,3 +186,7 @@ package texttable
 //@   assigns t.decor, ghost lockHeld
 //@   ensures [named-or-empty] result0 == t && !lockHeld && t.decor == (has(decoration.registry.table, n) ? decoration.registry.table[n] : decoration.EmptyDecoration) @C17,C19
 //@   ensures [unknown-name-is-reported] (result1 != nil) <==> t.decor == decoration.EmptyDecoration @C17,C19
+
+//@ global propDimensions immutable -- private property key, only compared
+//@ global propLinesWidths immutable -- private property key, only compared
+//@ global ErrNotCellProperties immutable -- an errors.New value, only returned
